@@ -74,7 +74,7 @@ func WorldSteps() []Step {
 	app := func(name, short string, gen []assettypes.MintGenesisToken) {
 		s = append(s, cfgStep("cfg.app", assettypes.AppData{Name: name, ShortName: short, MinGovDeposit: sdk.NewInt(0), GovTimeInSeconds: 0, GenesisToken: gen}))
 	}
-	app("cswap", "cswap", []assettypes.MintGenesisToken{})
+	s = append(s, cfgStep("cfg.app", assettypes.AppData{Name: "cswap", ShortName: "cswap", MinGovDeposit: sdk.NewInt(10000000), GovTimeInSeconds: 900, GenesisToken: []assettypes.MintGenesisToken{}}))
 	app("harbor", "hbr", []assettypes.MintGenesisToken{{AssetId: AHARBOR, GenesisSupply: sdk.NewInt(5_000_000_000_000), IsGovToken: true, Recipient: U("u6").String()},
 		{AssetId: A3, GenesisSupply: sdk.NewInt(1_000_000), IsGovToken: false, Recipient: U("u6").String()}})
 	app("commodo", "cmdo", []assettypes.MintGenesisToken{})
@@ -97,14 +97,23 @@ func WorldSteps() []Step {
 	s = append(s, cfgStep("cfg.lend.poolpairs", lendtypes.AssetRatesPoolPairs{AssetID: A4, UOptimal: d("0.65"), Base: d("0.002"), Slope1: d("0.08"), Slope2: d("1.5"),
 		EnableStableBorrow: false, StableBase: d("0.0"), StableSlope1: d("0.0"), StableSlope2: d("0.0"), Ltv: d("0.6"), LiquidationThreshold: d("0.65"),
 		LiquidationPenalty: d("0.05"), LiquidationBonus: d("0.05"), ReserveFactor: d("0.2"), CAssetID: CA4, ModuleName: "osmo", CPoolName: "OSMO-ATOM-CMST",
-		AssetData: []*lendtypes.AssetDataPoolMapping{p2a4, p1a1, p1a3}, MinUsdValueLeft: 1000000}))
+		AssetData: []*lendtypes.AssetDataPoolMapping{p2a4, p1a1, p1a3}, MinUsdValueLeft: 1000000, IsIsolated: true}))
+	// optional / later-added fields of exported records must be non-default somewhere: e-mode on two lend pairs (writes the
+	// E* parameters into the collateral asset's rates record)
+	s = append(s, cfgStep("cfg.lend.emode", lendtypes.EModePairsForProposal{EModePairs: []lendtypes.EModePairs{
+		{PairID: 3, ELtv: d("0.82"), ELiquidationThreshold: d("0.87"), ELiquidationPenalty: d("0.03")},
+		{PairID: 5, ELtv: d("0.66"), ELiquidationThreshold: d("0.7"), ELiquidationPenalty: d("0.04")}}}))
 
 	// ---- harbor: vault pairs, collector, locker, auctions, liquidation
 	s = append(s, cfgStep("cfg.pair", assettypes.Pair{AssetIn: A2, AssetOut: A3})) // pair 1
 	s = append(s, cfgStep("cfg.pair", assettypes.Pair{AssetIn: A4, AssetOut: A3})) // pair 2
 	s = append(s, cfgStep("cfg.pair", assettypes.Pair{AssetIn: A1, AssetOut: A3})) // pair 3 (stable mint)
 	ext := func(pair uint64, name string, stable bool, minCr string) {
-		s = append(s, cfgStep("cfg.extpair", bindings.MsgAddExtendedPairsVault{AppID: AppHarbor, PairID: pair, StabilityFee: d("0.01"), ClosingFee: d("0"),
+		closing := "0"
+		if pair == 2 {
+			closing = "0.005"
+		}
+		s = append(s, cfgStep("cfg.extpair", bindings.MsgAddExtendedPairsVault{AppID: AppHarbor, PairID: pair, StabilityFee: d("0.01"), ClosingFee: d(closing),
 			LiquidationPenalty: d("0.12"), DrawDownFee: d("0.01"), IsVaultActive: true, DebtCeiling: sdk.NewInt(1000000000000), DebtFloor: sdk.NewInt(1000000),
 			IsStableMintVault: stable, MinCr: d(minCr), PairName: name, AssetOutOraclePrice: true, AssetOutPrice: 1000000, MinUsdValueLeft: 1000000}))
 	}
@@ -122,8 +131,8 @@ func WorldSteps() []Step {
 	s = append(s, cfgStep("cfg.collector", bindings.MsgSetCollectorLookupTable{AppID: AppHarbor, CollectorAssetID: AHARBOR, SecondaryAssetID: A3,
 		SurplusThreshold: sdk.NewInt(900000000000), DebtThreshold: sdk.NewInt(0), LockerSavingRate: d("0.0"), LotSize: sdk.NewInt(300000),
 		BidFactor: d("0.02"), DebtLotSize: sdk.NewInt(3000000)}))
-	s = append(s, cfgStep("cfg.aucmap", bindings.MsgSetAuctionMappingForApp{AppID: AppHarbor, AssetIDs: AHARBOR, IsSurplusAuctions: false, IsDebtAuctions: false,
-		IsDistributor: true, AssetOutOraclePrices: true, AssetOutPrices: 0}))
+	s = append(s, cfgStep("cfg.aucmap", bindings.MsgSetAuctionMappingForApp{AppID: AppHarbor, AssetIDs: AHARBOR, IsSurplusAuctions: false, IsDebtAuctions: true,
+		IsDistributor: false, AssetOutOraclePrices: true, AssetOutPrices: 0}))
 	s = append(s, cfgStep("cfg.locker.whitelist", lockertypes.MsgAddWhiteListedAssetRequest{From: U("u6").String(), AppId: AppHarbor, AssetId: A3}))
 	dutch := liqv2types.DutchAuctionParam{Premium: d("1.2"), Discount: d("0.7"), DecrementFactor: sdk.NewInt(1)}
 	english := liqv2types.EnglishAuctionParam{DecrementFactor: sdk.NewInt(1)}
@@ -131,8 +140,8 @@ func WorldSteps() []Step {
 		DutchAuctionParam: &dutch, IsEnglishActivated: true, EnglishAuctionParam: &english, KeeeperIncentive: d("0.1")}))
 	s = append(s, cfgStep("cfg.liqv2.whitelist", liqv2types.LiquidationWhiteListing{AppId: AppLend, Initiator: true, IsDutchActivated: true,
 		DutchAuctionParam: &dutch, IsEnglishActivated: false, KeeeperIncentive: d("0.1")}))
-	s = append(s, cfgStep("cfg.aucv2.params", auctionsv2types.AuctionParams{AuctionDurationSeconds: 3600, Step: d("0.1"), WithdrawalFee: d("0.0"), ClosingFee: d("0.0"),
-		MinUsdValueLeft: 100000, BidFactor: d("0.1"), LiquidationPenalty: d("0.1"), AuctionBonus: d("0.0")}))
+	s = append(s, cfgStep("cfg.aucv2.params", auctionsv2types.AuctionParams{AuctionDurationSeconds: 3600, Step: d("0.1"), WithdrawalFee: d("0.005"), ClosingFee: d("0.005"),
+		MinUsdValueLeft: 100000, BidFactor: d("0.1"), LiquidationPenalty: d("0.1"), AuctionBonus: d("0.01")}))
 	// fractional carry state: stability-fee trackers of vaults and saving-rate trackers of lockers (x/rewards)
 	s = append(s, cfgStep("cfg.rewards.vaultinterest", uint64(AppHarbor)))
 	s = append(s, cfgStep("cfg.rewards.lockerasset", [2]uint64{AppHarbor, A3}))
